@@ -384,6 +384,20 @@ func NewModels(w *World) *Models {
 func (m *Models) Clone() *Models {
 	c := *m
 	c.Ent, c.Wrk, c.Bcn, c.Str = m.Ent.clone(), m.Wrk.clone(), m.Bcn.clone(), m.Str.clone()
+	c.ParamChanged = map[string]int{}
+	for k, v := range m.ParamChanged {
+		c.ParamChanged[k] = v
+	}
+	c.LastUpdate = map[string]sdk.Msg{}
+	for k, v := range m.LastUpdate {
+		c.LastUpdate[k] = v
+	}
+	c.Grants = map[string]bool{}
+	for k, v := range m.Grants {
+		c.Grants[k] = v
+	}
+	c.Settles = nil
+	c.RejectedUpd = nil
 	return &c
 }
 
